@@ -55,6 +55,7 @@ func init() {
 			g(rep, "SHADOW", func() { ruleSHADOW(p, rep) })
 			g(rep, "DEFERFREE", func() { ruleDEFERFREE(p, rep) })
 			g(rep, "BOUND-SOURCE", func() { ruleBOUNDSOURCE(p, rep) })
+			g(rep, "STABLE-BATCH", func() { ruleSTABLEBATCH(p, rep) })
 		},
 	})
 	register(&propertyDef{
@@ -79,6 +80,7 @@ func init() {
 			"Not decided: arithmetic of region splitting/merging, meta-area growth sizes, exactness of the partition.",
 		run: func(p *Program, rep *Report, tier string) {
 			g(rep, "FILE-END-AGREE", func() { ruleFILEENDAGREE(p, rep) })
+			g(rep, "REGION-CODEC", func() { ruleREGIONCODEC(p, rep) })
 			g(rep, "DEFERFREE", func() { ruleDEFERFREE(p, rep) })
 			g(rep, "ALLOC-RECORDED", func() { ruleALLOCRECORDED(p, rep) })
 			g(rep, "ALLOC-UNDOABLE", func() { ruleALLOCUNDOABLE(p, rep) })
@@ -97,6 +99,7 @@ func init() {
 			"Not decided: page spill arithmetic of buffer/cursor, header/offset values being the right numbers, chunking-independence as a whole.",
 		run: func(p *Program, rep *Report, tier string) {
 			g(rep, "EVENT-SIZE-SOURCE", func() { ruleEVENTSIZESOURCE(p, rep) })
+			g(rep, "PER-EVENT-STATE", func() { rulePEREVENTSTATE(p, rep) })
 			g(rep, "EVENT-BOUNDARY", func() { ruleEVENTBOUNDARY(p, rep) })
 			g(rep, "TAIL-OFFSET", func() { ruleTAILOFFSET(p, rep) })
 			g(rep, "POSITION-COHERENT", func() { rulePOSITIONCOHERENT(p, rep) })
@@ -114,6 +117,7 @@ func init() {
 			g(rep, "POSITION-COHERENT", func() { rulePOSITIONCOHERENT(p, rep) })
 			g(rep, "TAIL-OFFSET", func() { ruleTAILOFFSET(p, rep) })
 			g(rep, "WAL-RELEASE-ON-FREE", func() { ruleWALRELEASEONFREE(p, rep) })
+			g(rep, "PAGE-HEADER-AGREE", func() { rulePAGEHEADERAGREE(p, rep) })
 			g(rep, "TX-PAIRING", func() { ruleTXPAIRING(p, rep) })
 			g(rep, "ERRDISC", func() { ruleERRDISC(p, rep, "pq", false) })
 			g(rep, "ORDER", func() { ruleORDER(p, rep, orderSet("ORDER", "SLOT")) })
@@ -177,6 +181,8 @@ func init() {
 			g(rep, "PERSIST-AGREE", func() { rulePERSISTAGREE(p, rep) })
 			g(rep, "RELOAD-AGREE", func() { ruleRELOADAGREE(p, rep) })
 			g(rep, "PERSIST-MEMORY-AGREE", func() { rulePERSISTMEMORYAGREE(p, rep) })
+			g(rep, "RELOAD-EVERY-PATH", func() { ruleRELOADEVERYPATH(p, rep) })
+			g(rep, "PAGE-HEADER-AGREE", func() { rulePAGEHEADERAGREE(p, rep) })
 			g(rep, "MMAP-COVERS-FILE", func() { ruleMMAPCOVERSFILE(p, rep) })
 		},
 	})
